@@ -240,7 +240,29 @@ ATTR_LIBRARY["contextvar.set"] = _ctxvar_attr
 
 @lib("contextvars.ContextVar")
 def _contextvar_new(ex, st, args, kwargs, fn):
-    return [(st, Opaque("contextvar", {"name": "ctxvar", "default": kwargs.get("default")}))]
+    name = "ctxvar"
+    if args and isinstance(args[0], SV) and z3.is_string_value(z3.simplify(Sc.sv(args[0].t))):
+        name = z3.simplify(Sc.sv(args[0].t)).as_string()
+    return [(st, Opaque("contextvar", {"name": name, "default": kwargs.get("default")}))]
+
+
+def ctx_key(fn) -> str:
+    """ghost key of the state of ONE context variable (the variable the bound method belongs to)"""
+    var = getattr(fn, "bound", None)
+    name = var.data.get("name", "ctxvar") if isinstance(var, Opaque) and isinstance(var.data, dict) else "ctxvar"
+    # the library's only context variable keeps the historical key 'ctx' (contract clauses read ghost_ctx)
+    return "ctx" if name in ("ctxvar", "text_to_be_evaluated_by_format_constraint") else f"ctx:{name}"
+
+
+def ctx_snapshot(st) -> dict:
+    return {k: v for k, v in st.ghost.items() if k == "ctx" or k.startswith("ctx:")}
+
+
+def ctx_restore(st, snap: dict) -> None:
+    for k in [k for k in st.ghost if k == "ctx" or k.startswith("ctx:")]:
+        if k not in snap:
+            del st.ghost[k]
+    st.ghost.update(snap)
 
 
 LIBRARY["ContextVar"] = _contextvar_new
@@ -250,16 +272,19 @@ LIBRARY["ContextVar"] = _contextvar_new
 def _ctx_get(ex, st, args, kwargs, fn):
     """A-ASYNCIO M4: ContextVar.get returns the value of the variable in the current context (ghost: st.ghost['ctx'])"""
     used(ex, "A-ASYNCIO")
-    if "ctx" not in st.ghost:
-        st.ghost["ctx"] = ex.fresh_sv("ctx_text_at_entry")
-        st.assume(z3.Or(Sc.is_none(st.ghost["ctx"].t), Sc.is_s(st.ghost["ctx"].t)), axiom=True)
-    return [(st, st.ghost["ctx"])]
+    key = ctx_key(fn)
+    if key not in st.ghost:
+        # value at entry: unknown (whatever the caller's context holds); the library's variable holds a text or None
+        st.ghost[key] = ex.fresh_sv("ctx_text_at_entry")
+        if key == "ctx":
+            st.assume(z3.Or(Sc.is_none(st.ghost[key].t), Sc.is_s(st.ghost[key].t)), axiom=True)
+    return [(st, st.ghost[key])]
 
 
 @lib("contextvar.set")
 def _ctx_set(ex, st, args, kwargs, fn):
     used(ex, "A-ASYNCIO")
-    st.ghost["ctx"] = args[0]
+    st.ghost[ctx_key(fn)] = args[0]
     st.log.append(("ctxset", args[0]))
     return [(st, Opaque("token"))]
 
